@@ -4,7 +4,7 @@
 # Works in its own scratch worktree of /repo; never touches /repo's working tree.
 export GOFLAGS=-mod=mod GOPROXY=off GOSUMDB=off GOTOOLCHAIN=local CGO_ENABLED=1
 M="$1"; PROP="$2"; LABEL="${3:-$(basename $(dirname $(dirname "$M")))-$(basename "$M")}"
-V=/verif; WT=/root/scratch/wt-seed-$$; OUT=/root/scratch/seed-out-$$; mkdir -p "$OUT"
+V="$(cd "$(dirname "$0")" && pwd)"; WT=/root/scratch/wt-seed-$$; OUT=/root/scratch/seed-out-$$; mkdir -p "$OUT"
 git -C /repo worktree add -q "$WT" HEAD || exit 2
 trap 'git -C /repo worktree remove --force "$WT" 2>/dev/null; rm -rf "$OUT"' EXIT
 race=""; grep -q -- "-race" "$M/meta.json" && race="-race"
